@@ -404,13 +404,118 @@ fn scenario(cfg: &RunCfg) -> Outcome {
     }
 }
 
+/// A transient (EINTR-like) read error on the server side of the socket, at every offset of
+/// a sized request followed by a pipelined one. Giving up with an error is right and so is
+/// a correct retry; what may never happen is a body of another length than Content-Length
+/// or a next request parsed from the wrong byte.
+fn interrupted_read(cfg: &RunCfg) -> Outcome {
+    use crate::engine::stream::{drive, Drive};
+    use servlin::HttpConn;
+    use std::net::{IpAddr, Ipv4Addr, SocketAddr};
+    let n = 1 + gen::below(if gen::ratio(1, 5) { 9000 } else { 200 }) as usize;
+    let body = sim_core::tape::content(gen::seed32(), n);
+    let head1 = format!("POST /first HTTP/1.1\r\ncontent-length: {n}\r\n\r\n").into_bytes();
+    let head2 = b"GET /second HTTP/1.1\r\n\r\n".to_vec();
+    let mut data = head1.clone();
+    data.extend_from_slice(&body);
+    data.extend_from_slice(&head2);
+    // every offset is reached through the run index; short reads decide the rest
+    let k = (cfg.index as usize) % (data.len() + 1);
+    let id = with(|w| {
+        w.net.knobs.sock_cap = 1 << 20;
+        w.net.knobs.short_io = w.tape.ratio(2, 3);
+        w.net.knobs.spurious_pending_64 = *w.tape.pick(&[0u32, 6]);
+        let id = w.direct_conn();
+        w.client_write(id, &data);
+        w.client_shutdown_write(id);
+        w.net.conns[id].fail_read_at = Some((k as u64, std::io::ErrorKind::Interrupted));
+        w.net.conns[id].read_fault_transient = true;
+        id
+    });
+    let fired = || with(|w| w.net.conns[id].fail_read_at.is_none());
+    let ctx = format!("content-length {n}, transient Interrupted read error after {k} of {} stream bytes", data.len());
+    let mut conn = HttpConn::new(SocketAddr::new(IpAddr::V4(Ipv4Addr::new(10, 0, 0, 1)), 10000), async_net::TcpStream::sim_from_conn(id));
+    macro_rules! call {
+        ($what:expr, $fut:expr) => {
+            match drive($fut, 5_000_000) {
+                Drive::Done(v, _) => v,
+                Drive::Panicked(m) => return Outcome::fail("C03.no_panic", format!("{ctx}: {} panicked: {m}", $what)),
+                other => return Outcome { harness_error: Some(format!("{ctx}: {} did not finish: {:?}", $what, matches!(other, Drive::Stalled(_)))), ..Default::default() },
+            }
+        };
+    }
+    let done = |gave_up: bool| Outcome { nontrivial: true, case_hash: sim_core::tape::mix(n as u64, k as u64), sample: None, violation: None, harness_error: if gave_up { None } else { None } };
+    // first request
+    let r1 = call!("read_request", conn.read_request());
+    match r1 {
+        Err(e) => {
+            if !fired() {
+                return Outcome::fail("C03.framed_by_length", format!("{ctx}: the first request was refused with {e:?} before the fault happened"));
+            }
+            gen::count("probe.gave_up_after_interrupt");
+            return done(true);
+        }
+        Ok(req) => {
+            if req.url().path() != "/first" || req.content_length != Some(n as u64) {
+                return Outcome::fail("C03.framed_by_length", format!("{ctx}: first request parsed as {} with content_length {:?}", req.url().path(), req.content_length));
+            }
+        }
+    }
+    let fired_before_body = fired();
+    let b = call!("read_body_to_vec", conn.read_body_to_vec());
+    match b {
+        Err(e) => {
+            if !fired() || fired_before_body {
+                return Outcome::fail("C03.framed_by_length", format!("{ctx}: reading the body failed with {e:?} although no fault happened during the call"));
+            }
+            gen::count("probe.gave_up_after_interrupt");
+            return done(true);
+        }
+        Ok(rb) => {
+            let got: Vec<u8> = match Vec::<u8>::try_from(rb) {
+                Ok(v) => v,
+                Err(e) => return Outcome::fail("C03.framed_by_length", format!("{ctx}: body unreadable: {e}")),
+            };
+            if got != body {
+                return Outcome::fail(
+                    "C03.framed_by_length",
+                    format!("{ctx}: the body handed over has {} bytes (content-length {n}){}", got.len(), if got.len() > n && got[..n] == body[..] { " - it swallowed bytes of the next request" } else { "" }),
+                );
+            }
+        }
+    }
+    if let Err(e) = call!("write_response", conn.write_response(&servlin::Response::new(200))) {
+        return Outcome::fail("C03.framed_by_length", format!("{ctx}: write_response failed: {e:?}"));
+    }
+    let fired_before_second = fired();
+    match call!("second read_request", conn.read_request()) {
+        Err(e) => {
+            if !fired() || fired_before_second {
+                return Outcome::fail("C03.next_request_starts_after_body", format!("{ctx}: the pipelined request was refused with {e:?} although no fault happened during the call"));
+            }
+            gen::count("probe.gave_up_after_interrupt");
+        }
+        Ok(req) => {
+            if req.url().path() != "/second" {
+                return Outcome::fail("C03.next_request_starts_after_body", format!("{ctx}: the pipelined request parsed as {:?}", req.url().path()));
+            }
+            if fired() {
+                gen::count("probe.carried_on_after_interrupt");
+            }
+        }
+    }
+    done(false)
+}
+
 pub fn spec() -> PropertySpec {
     PropertySpec {
         id: "C03",
         level: "exploration",
         rule: "Histories of 1-8 messages on one simulated connection to the real server with a recording handler that always fetches pending bodies. Each message draws method class x Content-Length multiset (absent; valid 0, 1, <=S, >S, >8 KiB buffer, padded, 2^64-1; +5, -1, 0x10, '5,5', empty, non-numeric, 2^64, '5 5', 1e3; repeated equal / different / differing in name case) x Transfer-Encoding multiset (absent, chunked, gzip, gzip+chunked, reversed, unknown, repeated) x Expect x Content-Type (every table entry, parameters, unknown) x 0-2 Cookie fields, fields shuffled. Bodies are filled with decoy request heads; every genuine request has a unique path. Delivery: pipelined or ping-pong, whole / byte-wise / random fragments, short socket reads. Oracle: an independent framing model folds the header multisets into Body(n) / Empty / UntilEof / Coded / Reject verdicts, giving the exact handler log (bodies, content type, expect flag, cookie map, coding flags) and responses; no decoy may ever reach the handler. A coding together with a Content-Length (0 included) is generated too: the statement pins no single reading (its length clause and its coding clause both apply), so three are accepted: coding reported and refused when read, rejected outright, or - length 0 only - framed by the length. Combinations the statement does not pin (empty list elements, Expect without length on bodiless methods) are not generated. distinct = schedule hash; non-trivial = at least 2 messages.",
-        scenarios: vec![Scenario { name: "c03.framing", property: "C03", func: scenario, runs_quick: 250_000, runs_thorough: 8_000_000, doc: "framing histories" }],
-        required_probes: vec!["probe.ambiguous_framing_rejected", "probe.transfer_coding", "probe.three_or_more_messages_framed", "probe.coding_and_length_together"],
+        scenarios: vec![Scenario { name: "c03.framing", property: "C03", func: scenario, runs_quick: 250_000, runs_thorough: 8_000_000, doc: "framing histories" },
+            Scenario { name: "c03.interrupted_read", property: "C03", func: interrupted_read, runs_quick: 150_000, runs_thorough: 3_000_000, doc: "transient read error at every offset of a sized request + pipelined request (HttpConn level)" },
+        ],
+        required_probes: vec!["probe.ambiguous_framing_rejected", "probe.transfer_coding", "probe.three_or_more_messages_framed", "probe.coding_and_length_together", "probe.gave_up_after_interrupt"],
         components: components_server(),
         assumptions: vec!["coding names are generated in lower case only", "obsolete line folding and absolute-form targets are outside the grammar the library documents"],
     }
